@@ -15,6 +15,14 @@ pub fn gen(tier: &str, seed: u64, emit: &mut dyn FnMut(String)) {
         emit(format!("DSC {}", hex(&descriptor(tag, &p))));
         if tag == 10 { let mut q = p.clone(); for k in 0..len / 4 { q[4 * k + 3] = rng.below(6) as u8; } emit(format!("DSC {}", hex(&descriptor(tag, &q)))); }
     } }
+    // AVC video descriptor: every flags byte x the profile_idc / level_idc values H.264 defines (and some that it does not)
+    for profile in [66u8, 77, 88, 100, 110, 122, 244, 44, 83, 86, 118, 128, 0, 255, 67] {
+        for level in [9u8, 10, 11, 12, 13, 20, 21, 22, 30, 31, 32, 40, 41, 42, 50, 51, 52, 0, 255] {
+            for flags in 0..=255u8 { if !big && flags % 4 != 0 && flags & 0x10 == 0 { continue; }
+                emit(format!("DSC {}", hex(&descriptor(40, &[profile, flags, level, rng.byte()])))); } } }
+    // maximum bitrate and registration descriptors: boundary values of their fields
+    for v in [0u32, 1, 0x1fffff, 0x200000, 0x3ffffe, 0x3fffff] { for top in [0u8, 0x40, 0x80, 0xc0] {
+        emit(format!("DSC {}", hex(&descriptor(14, &[top | (v >> 16) as u8, (v >> 8) as u8, v as u8])))); } }
     // exhaustive loops over (tag class, length byte) sequences up to a total length
     let classes: [u8; 6] = [5, 10, 14, 40, 0, 200];
     let maxlen = if big { 14 } else { 10 };
